@@ -117,6 +117,8 @@ type c08Run struct {
 	bodies               []*c08Body
 	upGates              []chan struct{}
 	downGates            []chan struct{}
+	interim              int // informational (103 Early Hints) responses the peer sends before the final header
+	interimGates         []chan struct{}
 	peerBytesAtFire      int64
 	peerBytes            int64
 	rstSeen              int32
@@ -532,6 +534,22 @@ func (p *c08H1Peer) serve(c net.Conn) {
 			r.hit("attemptFails", "attemptFails", false)
 			return
 		}
+		// 1xx prefix: interim response i+1 is sent once the client has processed interim response i
+		for i := 0; i < r.interim; i++ {
+			if _, err := io.WriteString(c, "HTTP/1.1 103 Early Hints\r\nLink: </style.css>; rel=preload\r\n\r\n"); err != nil {
+				return
+			}
+			select {
+			case <-r.gate(&r.interimGates, i):
+			case <-r.firedCh:
+				r.stall(nil)
+				return
+			case <-r.release:
+				return
+			case <-time.After(c08HardLimit):
+				return
+			}
+		}
 		// response: headers, then chunk j once the caller has consumed chunk j-1
 		hdr := fmt.Sprintf("HTTP/1.1 200 OK\r\nContent-Type: application/octet-stream\r\nContent-Length: %d\r\n\r\n", r.downChunks*c08Chunk)
 		if _, err := io.WriteString(c, hdr); err != nil {
@@ -691,6 +709,20 @@ func (p *c08H2Peer) handle(w http.ResponseWriter, rq *http.Request) {
 		r.hit("attemptFails", "attemptFails", false)
 		panic(http.ErrAbortHandler) // RST_STREAM from the peer
 	}
+	for i := 0; i < r.interim; i++ {
+		w.Header().Set("Link", "</style.css>; rel=preload")
+		w.WriteHeader(103)
+		select {
+		case <-r.gate(&r.interimGates, i):
+		case <-r.firedCh:
+			stall()
+		case <-rq.Context().Done():
+			atomic.StoreInt32(&r.rstSeen, 1)
+			panic(http.ErrAbortHandler)
+		case <-time.After(c08HardLimit):
+			return
+		}
+	}
 	w.Header().Set("Content-Type", "application/octet-stream")
 	w.Header().Set("Content-Length", strconv.Itoa(r.downChunks*c08Chunk))
 	w.WriteHeader(200)
@@ -810,6 +842,20 @@ func c08TopFrames(stacks []string) string {
 		sb.WriteString("; ")
 	}
 	return sb.String()
+}
+
+// c08Watch is the per-call watchdog: a call of the library made by a lane itself (closing a response
+// body, a follow-up request, …) runs in a goroutine of its own and is given up on after c08HardLimit — a
+// wedged call is reported by name by the lane instead of running the whole package into its time-out.
+func c08Watch(what string, fn func()) (wedged string) {
+	done := make(chan struct{})
+	go func() { defer close(done); fn() }()
+	select {
+	case <-done:
+		return ""
+	case <-time.After(c08HardLimit):
+		return what + " did not return within " + c08HardLimit.String()
+	}
 }
 
 // c08WaitFor polls cond (an in-package observation of the transport) up to bound.
